@@ -568,6 +568,10 @@ func (e *Enc) logCallG(name string, st *State, args []Val, res Val, sig *types.S
 // builtins
 
 func (e *Enc) builtin(fr *Frame, b *ssa.Builtin, c *ssa.CallCommon, args []Val, st *State, rb Term, resType types.Type, site ssa.Instruction) (Val, *State, Term) {
+	if fr == fr.top && (b.Name() == "append" || b.Name() == "copy" || b.Name() == "delete") {
+		// cut-point assertions and call-site counts on the builtins that change data
+		e.countCall(fr, "builtin."+b.Name(), args, st, rb, site)
+	}
 	switch b.Name() {
 	case "len":
 		return Val{T: e.lenOf(args[0], st), Typ: types.Typ[types.Int]}, st, rb
@@ -1533,6 +1537,8 @@ func (e *Enc) cutSites(fn *ssa.Function, kind, pattern string) []ssa.Instruction
 					key = ifaceMethodKey(cc.Value.Type(), cc.Method)
 				} else if f := cc.StaticCallee(); f != nil {
 					key = fnKey(f)
+				} else if b, ok := cc.Value.(*ssa.Builtin); ok {
+					key = "builtin." + b.Name()
 				} else {
 					continue
 				}
